@@ -139,7 +139,7 @@ def gen_cases(ctx):
             ctx.count('class', 'exhaustive')
             yield mk_case(src, mk_data(n), True, ops)
   # random histories
-  for _ in range(700 if quick else 20000):
+  for _ in range(700 if quick else 15000):
     n = rng.choice([0, 1, 2, 3, 5, 8, 13, 21, 30])
     kind = rng.choice(['seq', 'seq', 'iter'])
     scalar = rng.random() < 0.7
@@ -310,7 +310,10 @@ def nontrivial(case, obs):
 
 
 def finding(case, what):
-  if not isinstance(what, str) or not what.startswith('skipped') or not _has_restore(case):
+  # the two open findings only ever *lose* rows; anything delivered twice is a different defect
+  if not isinstance(what, str) or not what.startswith('skipped') or 'delivered twice' in what:
+    return None
+  if not _has_restore(case):
     return None
   pipe = case.get('pipe')
   if pipe and case.get('threads', 0) > 0:
@@ -362,3 +365,146 @@ def shrink(case, fails):
             cur, changed = c, True
             break
   return cur
+
+
+# ----------------------------------------------------------------------------- threaded tie: schedule replay
+
+class _Unexplained(Exception):
+  pass
+
+
+def build_schedule(case, obs, shard_outs):
+  """Turns the observation of a real threaded run into a schedule of the model's transition system.
+
+  shard_outs[i] = for every source element of producer i (in order) the list of outputs the chain makes of it
+  (the MODEL's prediction of which elements each producer owns).  The observed deliveries decide the
+  `deliver` steps, the probe taken at each checkpoint (= what a restore from that state delivers when drained)
+  decides how far each producer had run (`pull` steps).  Raises _Unexplained when no schedule of the model
+  produces the observation (e.g. an output delivered twice, or a state behind the deliveries)."""
+  n = len(shard_outs)
+  where = {}
+  for i, sh in enumerate(shard_outs):
+    for q, outs in enumerate(sh):
+      for o in outs:
+        where[tuple(o)] = (i, q)
+  pulled, saved_pulled = [0] * n, [0] * n
+  buf, sched = [], []
+
+  def pull(i):
+    sched.append(['pull', i])
+    buf.extend(shard_outs[i][pulled[i]])
+    pulled[i] += 1
+
+  def deliver(o):
+    if o not in buf:
+      if tuple(o) not in where:
+        raise _Unexplained(f'output {o} is not an output of the uninterrupted run')
+      i, q = where[tuple(o)]
+      if q < pulled[i]:
+        raise _Unexplained(f'output {o} delivered although producer {i} is already past it and it is not buffered')
+      while pulled[i] <= q:
+        pull(i)
+    j = buf.index(o)
+    sched.append(['deliver', j])
+    buf.pop(j)
+
+  li, pi = 0, 0
+  for op in case['ops']:
+    if op[0] == 'take':
+      for o in obs['log'][li]:
+        deliver(o)
+      li += 1
+    elif op[0] == 'ckpt':
+      remaining = list(obs['probes'][pi])
+      pi += 1
+      for i in range(n):
+        mine = sorted(o for o in remaining if where.get(tuple(o), (None,))[0] == i)
+        c = pulled[i]
+        while c <= len(shard_outs[i]) and sorted(o for outs in shard_outs[i][c:] for o in outs) != mine:
+          c += 1
+        if c > len(shard_outs[i]):
+          raise _Unexplained(f'state of producer {i} at checkpoint {pi}: a restore delivers {mine}, which is not a '
+                             f'suffix of its shard at or after position {pulled[i]}')
+        while pulled[i] < c:
+          pull(i)
+      sched.append(['ckpt'])
+      saved_pulled = list(pulled)
+    elif op[0] == 'restore':
+      sched.append(['restore'])
+      pulled = list(saved_pulled)
+      buf.clear()
+  for o in obs['final']:
+    deliver(o)
+  for i in range(n):          # the real iterator reported exhaustion: every producer ran to its end
+    while pulled[i] < len(shard_outs[i]):
+      pull(i)
+  return sched
+
+
+def threaded_cases(ctx):
+  rng = ctx.rng
+  for _ in range(50 if ctx.quick else 400):
+    n = rng.choice([3, 5, 8, 13, 20, 30])
+    kind = rng.choice(['seq', 'seq', 'iter'])
+    if kind == 'seq':
+      ch = rand_chain(rng, rng.choice([0, 0, 1, 2]))
+      if chain_len(n, ch) is None:
+        ch = [dict(c, off=0) for c in ch]
+      src = dict(kind='seq', chain=ch)
+    else:
+      src = dict(kind='iter', idx=0, num=1, off=0)
+    pipe = dict(a=rng.choice([1, 2]), b=rng.choice([0, 100]), drop=None, target=0,
+                agg=rng.choice(['sumcount', 'sumcount_inplace']), via='batch')
+    if rng.random() < 0.3:
+      pipe['drop'] = dict(m=3, r=rng.randrange(3))
+    # producers start running when the iterator is built: the state a history starts from has to be an explicit
+    # checkpoint (with its probe), not the implicit capture at construction
+    ops = [['ckpt']] + rand_ops(rng, n, 4)
+    case = mk_case(src, mk_data(n), True, ops, pipe, rng.choice([1, 2, 4]), idiom=rng.choice(['fresh', 'self']))
+    case['probe'] = True
+    yield case
+
+
+def extra(ctx):
+  """Tie of the threaded transition system: the schedule observed on the real threads is replayed on the model,
+  which must then deliver / lose / aggregate exactly what the real run did."""
+  lean = ctx.lean
+  for case in threaded_cases(ctx):
+    ctx.extra_evals += 1
+    ctx.count('threaded_replay', case['threads'])
+    obs = run_impl(case)
+    what = oracle(case, obs)
+    if what is not None:
+      ctx.extra_oracle_failures.append((case, what))
+    if obs['err'] is not None:
+      ctx.extra_disagreements.append(('threaded-schedule', case, dict(why=f"real run raised {obs['err']}")))
+      continue
+    base = _req(case, [])
+    base['threads'] = case['threads']
+    part = lean.ask_many([base])[0]
+    if part.get('err') or 'driver_error' in part:
+      ctx.extra_disagreements.append(('threaded-schedule', case, dict(why=f'model rejects the configuration: {part}')))
+      continue
+    try:
+      sched = build_schedule(case, obs, part['rest'])
+    except _Unexplained as e:
+      ctx.extra_disagreements.append(('threaded-schedule', case, dict(why=f'no schedule of the model explains the run: {e}')))
+      continue
+    req = dict(base, ops=sched)
+    r = lean.ask_many([req])[0]
+    got = L.surviving(case['ops'], obs['log'], obs['final'])
+    lost_impl = sorted(_msdiff(_flat(obs['full']), _flat(got)))
+    why = None
+    if r.get('err') or 'driver_error' in r:
+      why = f'model failed on the observed schedule: {r}'
+    elif r['delivered'] != got:
+      why = 'delivered outputs differ under the observed schedule'
+    elif sorted(_flat(r['lost'])) != lost_impl:
+      why = f"lost rows differ: model {sorted(_flat(r['lost']))} real {lost_impl}"
+    elif r['buf'] or any(sh for sh in r['rest']):
+      why = 'model still holds outputs after the real iterator reported exhaustion'
+    elif not deep_close(obs['agg'], {'sum': float(r['agg']['sum']), 'count': float(r['agg']['count'])}):
+      why = f"aggregate differs under the observed schedule: model {r['agg']} real {obs['agg']}"
+    ctx.count('threaded_lost_rows', min(len(lost_impl), 9))
+    if why:
+      ctx.extra_disagreements.append(('threaded-schedule', case, dict(why=why, schedule=sched)))
